@@ -38,7 +38,29 @@ def arm_value(fn, envs, arm, match):
     if arm["guard"] is not None and arm["guard"]["k"] == "Let":
         g = arm["guard"]
         aenv = A.bind_pattern(aenv, g["pat"], g["expr"], aenv, "bind", g)
-    return A.resolve(arm["body"], aenv), aenv
+    val = A.resolve(arm["body"], aenv)
+    # when the match is the function's result, a `return X` inside the arm (`let Some(d) = .. else { return expr_id };`) is one more
+    # value the arm can give
+    tail = fn.body
+    while tail is not None and tail.get("k") == "Block" and tail.get("stmts") and tail["stmts"][-1].get("k") == "ExprStmt" and not tail["stmts"][-1].get("semi"):
+        tail = tail["stmts"][-1]["expr"]
+    if tail is match:
+        rets = []
+        stack = [arm["body"]]
+        while stack:
+            x = stack.pop()
+            if isinstance(x, dict):
+                if x.get("k") == "Closure":
+                    continue
+                if x.get("k") == "Return" and x.get("expr") is not None:
+                    rets.append(A.resolve(x["expr"], envs.get(id(x)) or envs.get(id(x["expr"])) or aenv))
+                stack.extend(v for v in x.values() if isinstance(v, (dict, list)))
+            elif isinstance(x, list):
+                stack.extend(v for v in x if isinstance(v, (dict, list)))
+        if rets:
+            alts = (val[1] if val[0] == "alt" else (val,)) + tuple(rets)
+            val = ("alt", alts)
+    return val, aenv
 
 
 def unwrap_ok_alloc(p):
